@@ -53,13 +53,26 @@ func streamKeys(c *ctx) {
 		if i%4 == 0 {
 			d = big.NewInt(int64(1 + c.r.intn(5000)))
 		} else if i%4 == 1 {
-			// search for a point whose x has a leading zero octet
-			for t := 0; t < 3000; t++ {
+			// search for a point whose x (or y) has a leading zero octet; on P-521 (top octet 0 or 1) for two leading zero octets
+			want := a.size - 1
+			if a.size == 66 {
+				want = a.size - 2
+			}
+			var fallback *big.Int
+			for t := 0; t < 4000; t++ {
 				d = new(big.Int).SetBytes(c.r.bytes(a.size - 1))
 				d.Add(d, big.NewInt(1))
-				if x, _ := a.curve.ScalarBaseMult(d.Bytes()); len(x.Bytes()) < a.size {
+				x, y := a.curve.ScalarBaseMult(d.Bytes())
+				if len(x.Bytes()) <= want || len(y.Bytes()) <= want {
+					fallback = nil
 					break
 				}
+				if fallback == nil && len(x.Bytes()) < a.size {
+					fallback = d
+				}
+			}
+			if fallback != nil {
+				d = fallback
 			}
 		} else {
 			d = new(big.Int).SetBytes(c.r.bytes(a.size - 1 - c.r.intn(2)))
@@ -108,7 +121,13 @@ func streamKeys(c *ctx) {
 			pre := cloneKey(withXY)
 			pre[iana.EC2KeyParameterX] = append([]byte{0x5a, 0x01}, xFull...)
 			variants["private+wrong-prefixed-x"] = pre
+			// the same integers behind further zero octets (within the length CheckKey admits)
+			pad := cloneKey(withXY)
+			pad[iana.EC2KeyParameterX] = append(make([]byte, 2+c.r.intn(3)), xFull...)
+			pad[iana.EC2KeyParameterY] = append(make([]byte, c.r.intn(4)), yFull...)
+			variants["private+zero-padded-xy"] = pad
 		}
+		c.count(fmt.Sprintf("leading zero octets x=%d y=%d", a.size-len(priv.X.Bytes()), a.size-len(priv.Y.Bytes())))
 		if b, err := key.MarshalCBOR(withXY); err == nil {
 			var rt key.Key
 			if key.UnmarshalCBOR(b, &rt) == nil {
